@@ -8,6 +8,7 @@ import Driver.Embed
 import Driver.Linearize
 import Driver.Context
 import Driver.Hist
+import Driver.Cli
 
 namespace Driver
 
@@ -25,6 +26,7 @@ def dispatch (dom : String) (ops : Array String) : Array String :=
   | "linearize" => Linearize.runCase ops
   | "context" => Context.runCase ops
   | "hist" => Hist.runCase ops
+  | "cli" => Cli.runCase ops
   | _ => ops.map (fun _ => "unknown-domain")
 
 end Driver
